@@ -5,12 +5,13 @@ from oracles import ArithOracle, ConsistencyOracle
 from propbase import StreamProperty
 
 RULE = ("ordered pairs of dimension lists drawn as permutations of non-empty subsets of the names {a,b,c,d} with "
-        "per-name extents (2,3,4,5) (pairwise distinct) and a name of extent 1 (equal and differing single coordinate), all four operators, real and complex data, plus scalar / "
+        "per-name extents (2,3,4,5) (pairwise distinct) a name of extent 1 (equal and differing single coordinate) and three names of EQUAL extent, all four operators, real and complex data, plus scalar / "
         "plain-array operands on either side and coordinate-mismatch pairs that must raise; quick = all pairs over 3 names "
         "+ a seeded sample over 4 names, thorough = all 64x64 pairs; non-trivial = the two operands differ in dims or "
         "axis order; distinct by canonical stream")
-EXT = {"a": 2, "b": 3, "c": 4, "d": 5, "e": 1}
-COORD = {"a": ["0", "1"], "b": ["3", "2", "1"], "c": ["0", "1/2", "1", "3/2"], "d": ["-2", "-1", "0", "1", "2"], "e": ["7"]}
+EXT = {"a": 2, "b": 3, "c": 4, "d": 5, "e": 1, "p": 3, "q": 3}
+COORD = {"a": ["0", "1"], "b": ["3", "2", "1"], "c": ["0", "1/2", "1", "3/2"], "d": ["-2", "-1", "0", "1", "2"], "e": ["7"],
+         "p": ["1", "2", "3"], "q": ["10", "20", "30"]}
 
 
 def obj(oid, dims, cplx, salt):
@@ -80,6 +81,14 @@ def streams(tier, seed):
         cc[mid] = cc[mid] + (cc[mid + 1] - cc[mid]) / 3 if mid + 1 < len(cc) else cc[mid] - Fraction(1, 3)
         b["coords"][k] = [str(x) for x in cc]
         out.append([obj(0, da, False, 0), b, {"op": "binop", "f": rng.choice(ops4), "lhs": 0, "rhs": 1, "out": 2}])
+    # dimensions of EQUAL extent (b, p, q all have 3 points): a mis-alignment keeps every shape, only labels can tell
+    l2 = dimlists(["b", "p", "q"])
+    pairs2 = [(x, y) for x in l2 for y in l2 if len(x) >= 2 or len(y) >= 2]
+    if tier != "thorough":
+        pairs2 = rng.sample(pairs2, 80)
+    for da, db in pairs2:
+        out.append([obj(0, da, False, 0), obj(1, db, rng.random() < 0.3, 5),
+                    {"op": "binop", "f": rng.choice(ops4), "lhs": 0, "rhs": 1, "out": 2}])
     # scalars and plain arrays on both sides
     for da in l3:
         for f in ops4:
